@@ -115,4 +115,202 @@ Section WithV.
     rewrite nth_firstn' by (apply Nat.mod_upper_bound; exact Hm).
     symmetry. apply (is_repeating_nth veqb veqb_spec); assumption.
   Qed.
+
+  (** index arithmetic of the documented layout *)
+  Lemma cidx_lt d c p : in_dims d p -> cidx d c p < mult_spec d c.
+  Proof.
+    destruct d as [[nS nT] nV], p as [[s t] v]. cbn [in_dims cidx mult_spec]. intros [Hs [Ht Hv]].
+    destruct c; try lia; try nia.
+    - assert (t + nT * v < nT * nV) by nia. assert (nS * (t + nT * v) + nS <= nS * (nT * nV)) by nia. nia.
+  Qed.
+
+  Lemma has_base_class_ok h d : hwf h -> has_base h (base_of d) = true -> class_ok (shape h) d = true.
+  Proof.
+    intros [Hn [_ [_ [Ht Hv]]]] Hb. unfold ndim in Hn.
+    destruct d; cbn [base_of has_base] in Hb; try (rewrite Ht in Hb; exact Hb); try (rewrite Hv in Hb; exact Hb).
+    all: unfold class_ok; destruct (length (shape h)) as [|[|[|[|[|[|n]]]]]]; try lia; reflexivity.
+  Qed.
+
+  Lemma isc_match (vs : list V) (P : nat) :
+    match Some P with Some 1 => Ok true | _ => is_constant veqb vs (Some P) end
+    = if P =? 1 then Ok true else is_constant veqb vs (Some P).
+  Proof. destruct P as [|[|n]]; reflexivity. Qed.
+
+  Lemma every_nth_1 (vs : list V) i : nth i (every_nth 0 1 vs) vnone = nth i vs vnone.
+  Proof. rewrite every_nth_nth by lia. f_equal; lia. Qed.
+
+  (** one successful const test with a numeric period *)
+  Lemma const_period_step (vs : list V) P io inew :
+    (if P =? 1 then Ok true else is_constant veqb vs (Some P)) = Ok true ->
+    io < length vs -> io / P = inew ->
+    nth inew (every_nth 0 P vs) vnone = nth io vs vnone.
+  Proof.
+    destruct (P =? 1) eqn:E.
+    - apply Nat.eqb_eq in E. subst P. intros _ _ <-. rewrite every_nth_1. f_equal. apply Nat.div_1_r.
+    - apply const_step.
+  Qed.
+
+  (** the const-test loop: whichever destination is taken, the denotation at [p] is unchanged, provided every
+      candidate destination satisfies the index relation for its period *)
+  Lemma simplify_const_den h c vs dests x p :
+    (forall d, In d dests -> has_base h (base_of d) = true ->
+       class_ok (shape h) d = true /\
+       forall per, const_period h c d = Ok per ->
+         match per with
+         | None => cidx (dims h) d p = 0
+         | Some P => cidx (dims h) c p / P = cidx (dims h) d p
+         end) ->
+    cidx (dims h) c p < length vs ->
+    simplify_const veqb h c vs dests = Ok (Some x) ->
+    den_k h (Some x) p = nth (cidx (dims h) c p) vs vnone.
+  Proof.
+    intros Hd Hi. induction dests as [|d ds IH]; [discriminate|].
+    cbn [simplify_const]. destruct (has_base h (base_of d)) eqn:Eb; [|apply IH; intros; apply Hd; [right|]; assumption].
+    destruct (Hd d (or_introl eq_refl) Eb) as [Hok Hper].
+    destruct (const_period h c d) as [per|] eqn:Ep; cbn [bind]; [|discriminate].
+    specialize (Hper _ eq_refl).
+    destruct per as [P|].
+    - rewrite isc_match.
+      destruct (if P =? 1 then Ok true else is_constant veqb vs (Some P)) as [[|]|] eqn:Ei; cbn [bind]; try discriminate.
+      + intros H. injection H as <-. unfold den_k. rewrite Hok.
+        apply const_period_step; assumption.
+      + apply IH. intros; apply Hd; [right|]; assumption.
+    - destruct (is_constant veqb vs None) as [[|]|] eqn:Ei; cbn [bind]; try discriminate.
+      + destruct (hd_res vs) as [v0|] eqn:Eh; cbn [bind]; [|discriminate].
+        intros H. injection H as <-. unfold den_k. rewrite Hok, Hper. cbn [nth].
+        apply (const_none_step vs v0); assumption.
+      + apply IH. intros; apply Hd; [right|]; assumption.
+  Qed.
+
+  Lemma simplify_const_none_or_some h c vs dests r :
+    simplify_const veqb h c vs dests = Ok r -> True.
+  Proof. trivial. Qed.
+
+  Lemma simplify_repeat_den h c vs dests x p :
+    (forall d, In d dests -> has_base h (base_of d) = true ->
+       class_ok (shape h) d = true /\
+       forall dm, multiplicity h d = Ok dm -> cidx (dims h) c p mod dm = cidx (dims h) d p) ->
+    cidx (dims h) c p < length vs ->
+    simplify_repeat veqb h vs dests = Ok (Some x) ->
+    den_k h (Some x) p = nth (cidx (dims h) c p) vs vnone.
+  Proof.
+    intros Hd Hi. induction dests as [|d ds IH]; [discriminate|].
+    cbn [simplify_repeat]. destruct (has_base h (base_of d)) eqn:Eb; [|apply IH; intros; apply Hd; [right|]; assumption].
+    destruct (Hd d (or_introl eq_refl) Eb) as [Hok Hdm].
+    destruct (multiplicity h d) as [dm|] eqn:Em; cbn [bind]; [|discriminate].
+    specialize (Hdm _ eq_refl).
+    destruct (is_repeating veqb vs dm) as [[|]|] eqn:Er; cbn [bind]; try discriminate.
+    - intros H. injection H as <-. unfold den_k. rewrite Hok. apply repeat_step; assumption.
+    - apply IH. intros; apply Hd; [right|]; assumption.
+  Qed.
+
+  Lemma simplify_k_den h c vs s' :
+    hwf h -> entry_ok h c vs -> (c = VSlices -> has_time h = false) ->
+    simplify_k veqb vnone h (Some (c, vs)) = Ok s' ->
+    forall p, in_dims (dims h) p -> den_k h s' p = den_k h (Some (c, vs)) p.
+  Proof.
+    intros Hw He Hvsl Hs p Hp.
+    destruct He as [Hok [Hsl Hlen]].
+    pose proof (cidx_lt _ c _ Hp) as Hidx. rewrite <- Hlen in Hidx.
+    pose proof (hwf_dims_pos h Hw) as Hpos.
+    unfold simplify_k, visible in Hs. rewrite class_valid_ok, Hok in Hs.
+    destruct const_dests_cases as [CG [CTS [CTL [CVS [CVL _]]]]].
+    destruct repeat_dests_cases as [RG [RVL [RTS [RTL RVS]]]].
+    assert (Hm : forall x, class_ok (shape h) x = true -> (is_slices x = true -> is_slices c = true) ->
+                         multiplicity h x = Ok (mult_spec (dims h) x)).
+    { intros x E Hx. destruct Hw as [Hn [_ [Hsd _]]]. apply multiplicity_ok; [exact Hn | exact E|].
+      intros Hxs. specialize (Hsl (Hx Hxs)). destruct (sdim h) as [d0|] eqn:Esd; [|congruence].
+      exists d0; split; [reflexivity | auto]. }
+    assert (Hns : is_slices c = true -> n_slices h = Some (fst (fst (dims h)))).
+    { intros Hc. specialize (Hsl Hc). destruct (sdim h) as [d0|] eqn:Esd; [|congruence].
+      eapply n_slices_dims; eauto. }
+    unfold den_k at 2. rewrite Hok.
+    (* generic wrap-up of the const loop followed by the repeat loop *)
+    assert (Hwrap : forall cd rd,
+      (forall x, simplify_const veqb h c vs cd = Ok (Some x) -> den_k h (Some x) p = nth (cidx (dims h) c p) vs vnone) ->
+      (forall x, simplify_repeat veqb h vs rd = Ok (Some x) -> den_k h (Some x) p = nth (cidx (dims h) c p) vs vnone) ->
+      forall s0,
+      (do r <- simplify_const veqb h c vs cd;
+       match r with
+       | Some x => Ok (Some x)
+       | None => do r2 <- simplify_repeat veqb h vs rd;
+                 match r2 with Some x => Ok (Some x) | None => Ok (Some (c, vs)) end
+       end)%res = Ok s0 -> den_k h s0 p = nth (cidx (dims h) c p) vs vnone).
+    { intros cd rd H1 H2 s0. destruct (simplify_const veqb h c vs cd) as [[x|]|] eqn:E1; cbn [bind]; try discriminate.
+      - intros H. injection H as <-. apply H1. reflexivity.
+      - destruct (simplify_repeat veqb h vs rd) as [[x|]|] eqn:E2; cbn [bind]; try discriminate.
+        + intros H. injection H as <-. apply H2. reflexivity.
+        + intros H. injection H as <-. unfold den_k. rewrite Hok. reflexivity. }
+    assert (Hwrap0 : forall cd,
+      (forall x, simplify_const veqb h c vs cd = Ok (Some x) -> den_k h (Some x) p = nth (cidx (dims h) c p) vs vnone) ->
+      forall s0,
+      (do r <- simplify_const veqb h c vs cd;
+       match r with Some x => Ok (Some x) | None => Ok (Some (c, vs)) end)%res = Ok s0 ->
+      den_k h s0 p = nth (cidx (dims h) c p) vs vnone).
+    { intros cd H1 s0. destruct (simplify_const veqb h c vs cd) as [[x|]|] eqn:E1; cbn [bind]; try discriminate.
+      - intros H. injection H as <-. apply H1. reflexivity.
+      - intros H. injection H as <-. unfold den_k. rewrite Hok. reflexivity. }
+    destruct (dims h) as [[nS nT] nV] eqn:Ed. destruct p as [[s t] v]. cbn [in_dims] in Hp.
+    destruct Hp as [Hps [Hpt Hpv]]. destruct Hpos as [HS [HT HV]].
+    destruct c.
+    - (* GConst *)
+      cbn [mult_spec] in Hlen. destruct vs as [|x [|y r]]; try discriminate Hlen.
+      destruct (veqb_spec x vnone) as [->|Hne]; injection Hs as <-; [reflexivity|].
+      unfold den_k. rewrite Hok, Ed. reflexivity.
+    - (* GSlices *)
+      rewrite CG, RG in Hs. revert Hs. apply Hwrap.
+      + intros x. rewrite <- Ed. apply simplify_const_den; [|rewrite Ed; exact Hidx].
+        intros d Hin Hb. pose proof (has_base_class_ok h d Hw Hb) as Hokd. split; [exact Hokd|].
+        rewrite Ed. destruct Hin as [<-|[<-|[<-|[]]]]; cbn [const_period].
+        * intros per H. injection H as <-. reflexivity.
+        * rewrite (Hm GSlices Hok ltac:(auto)), (Hm VSamples Hokd ltac:(discriminate)).
+          cbn [bind mult_spec]. destruct (nV =? 0) eqn:E0; [apply Nat.eqb_eq in E0; lia|].
+          intros per H. injection H as <-. cbn [cidx].
+          replace (nS * nT * nV / nV) with (nS * nT) by (symmetry; apply Nat.div_mul; lia).
+          replace (s + nS * (t + nT * v)) with ((s + nS * t) + (nS * nT) * v) by ring.
+          apply div_add_small. nia.
+        * rewrite (Hm GSlices Hok ltac:(auto)), (Hm TSamples Hokd ltac:(discriminate)).
+          cbn [bind mult_spec]. destruct (nT * nV =? 0) eqn:E0; [apply Nat.eqb_eq in E0; nia|].
+          intros per H. injection H as <-. cbn [cidx].
+          replace (nS * nT * nV / (nT * nV)) with nS by (symmetry; rewrite <- Nat.mul_assoc; apply Nat.div_mul; nia).
+          apply div_add_small. lia.
+      + intros x. rewrite <- Ed. apply simplify_repeat_den; [|rewrite Ed; exact Hidx].
+        intros d Hin Hb. pose proof (has_base_class_ok h d Hw Hb) as Hokd. split; [exact Hokd|].
+        rewrite Ed. destruct Hin as [<-|[<-|[]]]; rewrite (Hm _ Hokd ltac:(auto)); cbn [mult_spec cidx];
+          intros dm H; injection H as <-.
+        * apply mod_add_small. lia.
+        * replace (s + nS * (t + nT * v)) with ((s + nS * t) + (nS * nT) * v) by ring.
+          apply mod_add_small. nia.
+    - (* TSamples *)
+      rewrite CTS, RTS in Hs. revert Hs. apply Hwrap0.
+      intros x. rewrite <- Ed. apply simplify_const_den; [|rewrite Ed; exact Hidx].
+      intros d Hin Hb. pose proof (has_base_class_ok h d Hw Hb) as Hokd. split; [exact Hokd|].
+      rewrite Ed. destruct Hin as [<-|[<-|[]]]; cbn [const_period].
+      + intros per H. injection H as <-. reflexivity.
+      + pose proof (class_ok_ndim _ _ Hok) as [_ [HndT _]]. fold (ndim h) in HndT.
+        rewrite (shape_at3_dims h (HndT eq_refl)), Ed. cbn [fst snd].
+        intros per H. injection H as <-. cbn [cidx]. apply div_add_small. lia.
+    - (* TSlices *)
+      rewrite CTL, RTL in Hs. revert Hs. apply Hwrap0.
+      intros x. rewrite <- Ed. apply simplify_const_den; [|rewrite Ed; exact Hidx].
+      intros d Hin Hb. pose proof (has_base_class_ok h d Hw Hb) as Hokd. split; [exact Hokd|].
+      rewrite Ed. destruct Hin as [<-|[]]; cbn [const_period].
+      intros per H. injection H as <-. reflexivity.
+    - (* VSamples *)
+      rewrite CVS, RVS in Hs. revert Hs. apply Hwrap0.
+      intros x. rewrite <- Ed. apply simplify_const_den; [|rewrite Ed; exact Hidx].
+      intros d Hin Hb. pose proof (has_base_class_ok h d Hw Hb) as Hokd. split; [exact Hokd|].
+      rewrite Ed. destruct Hin as [<-|[]]; cbn [const_period].
+      intros per H. injection H as <-. reflexivity.
+    - (* VSlices *)
+      rewrite CVL, RVL in Hs. revert Hs. apply Hwrap.
+      + intros x. rewrite <- Ed. apply simplify_const_den; [|rewrite Ed; exact Hidx].
+        intros d Hin Hb. pose proof (has_base_class_ok h d Hw Hb) as Hokd. split; [exact Hokd|].
+        rewrite Ed. destruct Hin as [<-|[<-|[]]]; cbn [const_period].
+        * intros per H. injection H as <-. reflexivity.
+        * cbn [base_of has_base] in Hb. rewrite (Hvsl eq_refl) in Hb. discriminate.
+      + intros x. rewrite <- Ed. apply simplify_repeat_den; [|rewrite Ed; exact Hidx].
+        intros d Hin Hb. pose proof (has_base_class_ok h d Hw Hb) as Hokd. split; [exact Hokd|].
+        rewrite Ed. destruct Hin as [<-|[]]. cbn [base_of has_base] in Hb. rewrite (Hvsl eq_refl) in Hb. discriminate.
+  Qed.
 End WithV.
